@@ -39,6 +39,7 @@ class Contract:
 	hints_exit: list[str] = field(default_factory=list)
 	top: list[str] = field(default_factory=list)  # which ensures clauses are taken from the property statement
 	inline_only: bool = False  # only loop annotations; callers inline the body
+	inline_calls: bool = False  # verified standalone against this contract, but call sites inline the body (e.g. annotations that lie about argument types)
 	canary: str | None = None  # a clause that must be refuted (negation of the main post); default: derived
 	note: str = ''
 	known: list[str] = field(default_factory=list)  # ids in known_findings.json whose witness predicate is excluded
@@ -48,6 +49,7 @@ class Contract:
 	max_paths: int = 4000
 	consts: dict[str, Any] = field(default_factory=dict)  # named constants usable in clause text
 	dispatch: str | None = None  # dynamic class of the receiver (virtual dispatch of self.m()); key becomes qualname@dispatch
+	native_requires: list[str] = field(default_factory=list)  # preconditions evaluated only natively (bounded twin / replay)
 	bounded_ensures: list[str] = field(default_factory=list)  # clauses checked only by the bounded twin (never counted as proved)
 	lets: dict[str, str] = field(default_factory=dict)  # named abbreviations over the pre-state, usable in every clause
 
@@ -197,3 +199,8 @@ def init(seq):
 
 def last(seq):
 	return seq[len(seq) - 1]
+
+
+def fzero(x):
+	"""Float zero test (SMT: the uninterpreted predicate that guards float division)."""
+	return x == 0
